@@ -1852,8 +1852,9 @@ func ruleTokenProgress(p *Program, r *Reporter) {
 			}
 		}
 	}
-	// must-dataflow over NextToken
-	fn := a.lexNext
+	// must-dataflow over the token function — and, with the same rules, over
+	// the functions it hands the work to: one of those whose every return has
+	// consumed input counts as a reader that always advances
 	type fact struct {
 		adv    bool
 		guards map[*ssa.Function]bool
@@ -1899,10 +1900,27 @@ func ruleTokenProgress(p *Program, r *Reporter) {
 		out := clone(in)
 		for _, ins := range b.Instrs {
 			cc := callOf(ins)
-			if cc == nil || cc.StaticCallee() == nil {
+			if cc == nil {
 				continue
 			}
 			if _, isDefer := ins.(*ssa.Defer); isDefer {
+				continue
+			}
+			if cc.StaticCallee() == nil {
+				// a reader taken from a table of the package's own functions:
+				// every one of them always advances
+				if _, hs, ok := moduleFuncTable(p, cc.Value); ok && !cc.IsInvoke() {
+					all := len(hs) > 0
+					for _, h := range hs {
+						if !always[h] {
+							all = false
+						}
+					}
+					if all {
+						out.adv = true
+					}
+					out.guards = map[*ssa.Function]bool{}
+				}
 				continue
 			}
 			cal := cc.StaticCallee()
@@ -2003,55 +2021,83 @@ func ruleTokenProgress(p *Program, r *Reporter) {
 		}
 		return out
 	}
-	in := map[*ssa.BasicBlock]*fact{}
-	outF := map[*ssa.BasicBlock]*fact{}
-	for _, b := range fn.Blocks {
-		in[b], outF[b] = top(), top()
-	}
-	in[fn.Blocks[0]] = &fact{guards: map[*ssa.Function]bool{}}
-	for changed, iter := true, 0; changed && iter < 200; iter++ {
-		changed = false
+	var fn *ssa.Function
+	// flow: the first return of fn that is reached without input having been
+	// consumed ("" when there is none), and the number of returns
+	flow := func(f *ssa.Function) (string, int) {
+		fn = f
+		in := map[*ssa.BasicBlock]*fact{}
+		outF := map[*ssa.BasicBlock]*fact{}
 		for _, b := range fn.Blocks {
-			var cur *fact
-			if b == fn.Blocks[0] {
-				cur = &fact{guards: map[*ssa.Function]bool{}}
-			}
-			for _, pd := range b.Preds {
-				if outF[pd] == nil {
+			in[b], outF[b] = top(), top()
+		}
+		in[fn.Blocks[0]] = &fact{guards: map[*ssa.Function]bool{}}
+		for changed, iter := true, 0; changed && iter < 200; iter++ {
+			changed = false
+			for _, b := range fn.Blocks {
+				var cur *fact
+				if b == fn.Blocks[0] {
+					cur = &fact{guards: map[*ssa.Function]bool{}}
+				}
+				for _, pd := range b.Preds {
+					if outF[pd] == nil {
+						continue
+					}
+					cur = meet(cur, edge(pd, b, outF[pd]))
+				}
+				if cur == nil {
 					continue
 				}
-				cur = meet(cur, edge(pd, b, outF[pd]))
+				if !equal(cur, in[b]) {
+					in[b] = cur
+					changed = true
+				}
+				o := transfer(b, cur)
+				if !equal(o, outF[b]) {
+					outF[b] = o
+					changed = true
+				}
 			}
-			if cur == nil {
+		}
+		nret := 0
+		bad := ""
+		for _, b := range fn.Blocks {
+			ret, ok := terminator(b).(*ssa.Return)
+			if !ok || outF[b] == nil {
 				continue
 			}
-			if !equal(cur, in[b]) {
-				in[b] = cur
-				changed = true
+			nret++
+			if !outF[b].adv && bad == "" {
+				bad = p.Pos(ret.Pos())
+				if !ret.Pos().IsValid() {
+					bad = p.Pos(firstPos(b))
+				}
 			}
-			o := transfer(b, cur)
-			if !equal(o, outF[b]) {
-				outF[b] = o
+		}
+		return bad, nret
+	}
+	// functions that produce a token (or its text) and consume input on every
+	// path, by the same reasoning: readers that always advance
+	lexFuncs := append([]*ssa.Function{}, fns...)
+	for _, f := range p.LibFns {
+		if f.Parent() != nil && fnPkg(f) != nil && fnPkg(f).Pkg.Path() == Mod+"/lexer" && !isLex[f] {
+			lexFuncs = append(lexFuncs, f)
+		}
+	}
+	for changed := true; changed; {
+		changed = false
+		for _, f := range lexFuncs {
+			if always[f] || f == a.lexNext || len(f.Blocks) == 0 {
+				continue
+			}
+			if bad, n := flow(f); bad == "" && n > 0 {
+				always[f] = true
 				changed = true
 			}
 		}
 	}
 	key := "every token returned by NextToken has consumed input"
-	nret := 0
-	bad := ""
-	for _, b := range fn.Blocks {
-		ret, ok := terminator(b).(*ssa.Return)
-		if !ok || outF[b] == nil {
-			continue
-		}
-		nret++
-		if !outF[b].adv && bad == "" {
-			bad = p.Pos(ret.Pos())
-			if !ret.Pos().IsValid() {
-				bad = p.Pos(firstPos(b))
-			}
-		}
-	}
+	bad, nret := flow(a.lexNext)
 	var gs []string
 	for f, q := range guarded {
 		gs = append(gs, f.Name()+" when "+q.Name()+"(ch)")
